@@ -4,7 +4,7 @@
 # and which stay silent (.) — the last two columns are what precision and recall across properties look like.
 HERE="$(cd "$(dirname "$0")/.." && pwd)"
 SRC="${1:-$HERE/seeded}"
-WT=/tmp/verif-cross-wt
+WT="${VERIF_WT:-/tmp/verif-cross-wt-$$}"
 git -C /repo worktree remove --force $WT 2>/dev/null
 git -C /repo worktree add -q --detach $WT HEAD || exit 2
 for d in "$SRC"/*/; do
